@@ -6,6 +6,7 @@ import (
 	"fmt"
 	"net"
 	"reflect"
+	"runtime"
 	"sort"
 	"strings"
 	"sync"
@@ -42,6 +43,10 @@ type C12Case struct {
 	RTOms     int  `json:"rto_ms"` // 0 = library default
 	Txs       []Tx `json:"txs"`
 	CloseAtMs int  `json:"close_at_ms"` // -1: never
+	// Tie: coincidence mode (C18) - responses, Close and failing writes land exactly on timer
+	// instants, a failing write spins for a few microseconds of real time; only order-insensitive
+	// oracles are applied.
+	Tie bool `json:"tie,omitempty"`
 }
 
 type txObs struct {
@@ -60,6 +65,7 @@ type failConn struct {
 	mu    sync.Mutex
 	count map[int]int
 	fail  map[int]int // dest port -> transmission index whose write fails
+	spin  bool
 }
 
 func (f *failConn) WriteTo(b []byte, a net.Addr) (int, error) {
@@ -73,6 +79,12 @@ func (f *failConn) WriteTo(b []byte, a net.Addr) (int, error) {
 	want, has := f.fail[port]
 	f.mu.Unlock()
 	if has && want == n {
+		if f.spin {
+			for i := 0; i < 300; i++ { // a few microseconds of real time in which other goroutines run
+				runtime.Gosched()
+			}
+		}
+
 		return 0, errors.New("sim: injected write failure")
 	}
 
@@ -146,7 +158,11 @@ func runC12Inner(c *C12Case) c12Result { //nolint:cyclop,gocyclo,maintidx
 	if err != nil {
 		return c12Result{kind: "harness", msg: err.Error()}
 	}
-	fc := &failConn{PacketConn: csock, count: map[int]int{}, fail: map[int]int{}}
+	fc := &failConn{PacketConn: csock, count: map[int]int{}, fail: map[int]int{}, spin: c.Tie}
+	off137, off17, off7 := 137*time.Microsecond, 17*time.Microsecond, 7*time.Microsecond
+	if c.Tie {
+		off137, off17, off7 = 0, 0, 0
+	}
 	other, _ := n.BindUDP("udp4", net.IPv4(10, 0, 0, 9), 9999)
 	cl, err := turn.NewClient(&turn.ClientConfig{
 		Conn: fc, Net: &sim.TNet{N: n}, LoggerFactory: logger, RTO: time.Duration(c.RTOms) * time.Millisecond,
@@ -220,7 +236,7 @@ func runC12Inner(c *C12Case) c12Result { //nolint:cyclop,gocyclo,maintidx
 				if tx.FromOther {
 					src = other
 				}
-				delay := time.Duration(tx.RespDelayMs)*time.Millisecond + 137*time.Microsecond
+				delay := time.Duration(tx.RespDelayMs)*time.Millisecond + off137
 				id := m.TxID
 				time.AfterFunc(delay, func() {
 					if tx.WrongFirst {
@@ -270,7 +286,7 @@ func runC12Inner(c *C12Case) c12Result { //nolint:cyclop,gocyclo,maintidx
 		wg.Add(1)
 		go func(i int, tx *Tx) {
 			defer wg.Done()
-			time.Sleep(time.Duration(tx.StartMs)*time.Millisecond + time.Duration(17*(i+1))*time.Microsecond)
+			time.Sleep(time.Duration(tx.StartMs)*time.Millisecond + time.Duration(i+1)*off17)
 			to := &net.UDPAddr{IP: net.IPv4(10, 0, 0, 1), Port: 4000 + i}
 			o := obs[i]
 			var rerr error
@@ -313,7 +329,7 @@ func runC12Inner(c *C12Case) c12Result { //nolint:cyclop,gocyclo,maintidx
 		wg.Add(1)
 		go func() {
 			defer wg.Done()
-			time.Sleep(time.Duration(c.CloseAtMs)*time.Millisecond + 7*time.Microsecond)
+			time.Sleep(time.Duration(c.CloseAtMs)*time.Millisecond + off7)
 			cl.Close()
 		}()
 	}
@@ -338,23 +354,44 @@ func runC12Inner(c *C12Case) c12Result { //nolint:cyclop,gocyclo,maintidx
 		sched, failOff := schedule(rto)
 		closeOff := time.Duration(-1)
 		if c.CloseAtMs >= 0 {
-			closeOff = time.Duration(c.CloseAtMs)*time.Millisecond + 7*time.Microsecond
+			closeOff = time.Duration(c.CloseAtMs)*time.Millisecond + off7
 		}
 		for i := range c.Txs {
 			tx := &c.Txs[i]
 			o := obs[i]
-			t0 := time.Duration(tx.StartMs)*time.Millisecond + time.Duration(17*(i+1))*time.Microsecond
+			t0 := time.Duration(tx.StartMs)*time.Millisecond + time.Duration(i+1)*off17
 			ctx := fmt.Sprintf("transaction %d (%s, rto %v)", i, tx.Kind, rto)
 			if !o.returned {
 				res = c12Result{kind: "hang", msg: ctx + ": the API call has not returned 50 s after everything was over"}
 
 				return
 			}
+			if c.Tie {
+				// order-insensitive: the call returned once (by construction), with an error or with
+				// the first matching response; retransmissions follow the timetable as far as they go
+				if o.retErr != nil && strings.HasPrefix(o.retErr.Error(), "MISMATCH") {
+					res = c12Result{kind: "wrong-response-returned", msg: ctx + ": " + o.retErr.Error()}
+
+					return
+				}
+				if o.retErr == nil && tx.Kind != "ignore" && o.retPort != 1000*(i+1)+1 {
+					res = c12Result{kind: "wrong-response-returned", msg: fmt.Sprintf("%s: the call returned the response marked %d", ctx, o.retPort)}
+
+					return
+				}
+				if len(o.sent) > 7 {
+					res = c12Result{kind: "retransmission-schedule", msg: fmt.Sprintf("%s: %d request datagrams", ctx, len(o.sent))}
+
+					return
+				}
+
+				continue
+			}
 			// --- when does the model say the transaction ends, and how?
 			endAt, endHow := t0+failOff, "timeout"
 			respAt := time.Duration(-1)
 			if tx.RespTo >= 0 && tx.RespTo < 7 && !(tx.RespTo < len(tx.Lost) && tx.Lost[tx.RespTo]) && (tx.WriteFailAt < 0 || tx.RespTo < tx.WriteFailAt) {
-				respAt = t0 + sched[tx.RespTo] + time.Duration(tx.RespDelayMs)*time.Millisecond + 137*time.Microsecond
+				respAt = t0 + sched[tx.RespTo] + time.Duration(tx.RespDelayMs)*time.Millisecond + off137
 				if respAt < endAt {
 					endAt, endHow = respAt, "response"
 				}
